@@ -603,3 +603,24 @@ Proof.
     apply Permutation_sym. eapply perm_trans; [exact PX|]. rewrite app_assoc. apply Permutation_app_tail.
     apply Permutation_sym. exact Hsplit.
 Qed.
+
+(* The remaining case: the captured end domain lies before the captured start domain — the range is contained in a
+   gap between two domains.  A delete that reports success then changes nothing, whatever was committed meanwhile
+   (so it can be placed anywhere in the serial order). *)
+Theorem delete_in_gap_noop ps2 sd s so a' ed e eo b' final :
+  idx_ok ps2 -> In s ps2 -> In e ps2 -> p_start e < p_start s ->
+  delete_apply ps2 (repechage_start ps2 sd s) s so a' (repechage_end ps2 ed e) e eo b' = (final, ROk) ->
+  final = ps2.
+Proof.
+  intros Hok Hs He Hlt Hfin.
+  pose proof (repechage_start_finds ps2 sd s Hok Hs) as Hgs. pose proof (repechage_end_finds ps2 ed e Hok He) as Hge.
+  set (sd' := repechage_start ps2 sd s) in *. set (ed' := repechage_end ps2 ed e) in *.
+  assert (Hpos : ed' < sd') by (apply (pos_lt_start ps2 ed' sd' e s); assumption).
+  unfold delete_apply in Hfin.
+  destruct (validate_delete ps2 sd' ed' so eo) as [[[ok ie] so'] eo'] eqn:Ev.
+  destruct ok; cbn [negb] in Hfin; [|now inversion Hfin].
+  destruct (validate_delete_true _ _ _ _ _ _ _ _ _ _ Hgs Hge Ev) as (_ & _ & [Hle|(Hadj & Hs0 & He0)] & _); [lia|].
+  subst so' eo'. cbn in Hfin. inversion Hfin as [Hf]. clear Hfin.
+  replace (Z.to_nat (ed' + 1)) with (Z.to_nat sd') by lia.
+  rewrite firstn_skipn. now rewrite firstn_skipn.
+Qed.
